@@ -2,7 +2,15 @@
 
 package transformer
 
-import "github.com/antlr4-go/antlr/v4"
+import (
+	"sort"
+	"strconv"
+
+	"github.com/antlr4-go/antlr/v4"
+	openfgav1 "github.com/openfga/api/proto/openfga/v1"
+
+	parser "github.com/openfga/language/pkg/go/gen"
+)
 
 // VerifListenerTrace, when non-nil, receives one event per relation-level listener callback: the callback, its arguments
 // and the projection of the listener state after it (number of collected rewrites, current operator, depth of the
@@ -10,6 +18,17 @@ import "github.com/antlr4-go/antlr/v4"
 var VerifListenerTrace func(event string, args []string, rewrites int, operator string, stackDepth int)
 
 func verifTraceListener(l *OpenFgaDslListener, event string, args ...string) {
+	if VerifDocTrace != nil && event != "ExitRelDecl" {
+		docArgs := append([]string{}, args...)
+		if event == "ExitRewrite" && l.currentRelation != nil && len(l.currentRelation.Rewrites) > 0 {
+			// (a tupleset name can be empty after error recovery: say which kind of rewrite was appended)
+			last := l.currentRelation.Rewrites[len(l.currentRelation.Rewrites)-1]
+			docArgs = append(docArgs, strconv.FormatBool(last.GetTupleToUserset() != nil))
+		}
+
+		VerifDocTrace(event, docArgs, verifDocState(l))
+	}
+
 	if VerifListenerTrace == nil {
 		return
 	}
@@ -20,6 +39,136 @@ func verifTraceListener(l *OpenFgaDslListener, event string, args ...string) {
 	}
 
 	VerifListenerTrace(event, args, rewrites, operator, len(l.rewriteStack))
+}
+
+// VerifDocState is the projection of the whole listener state logged after every callback (-1 / "" where a pointer is nil).
+type VerifDocState struct {
+	Types, CurRelations, Conditions, CurParameters, Extensions, Rewrites, StackDepth, Restrictions int
+	CurType, CurCondition, Module, Operator, Schema                                                string
+	Modular, HasCurType, HasCurRelation, HasCurCondition                                           bool
+}
+
+// VerifDocTrace, when non-nil, receives one event per listener callback of the whole document walk (deferred, i.e. after
+// the callback body ran, also on its early returns): the callback, what it read from its context (nil parts as "<nil>"),
+// and the state projection. The relation-level callbacks that already carry verifTraceListener report through it.
+var VerifDocTrace func(event string, args []string, st VerifDocState)
+
+const verifNil = "<nil>"
+
+func verifText(t interface{ GetText() string }, isNil bool) string {
+	if isNil {
+		return verifNil
+	}
+
+	return t.GetText()
+}
+
+func verifPos(t antlr.Token) []string {
+	if t == nil {
+		return []string{"-1", "-1"}
+	}
+
+	return []string{strconv.Itoa(t.GetLine() - 1), strconv.Itoa(t.GetColumn())}
+}
+
+func verifDocState(l *OpenFgaDslListener) VerifDocState {
+	st := VerifDocState{
+		Types: len(l.authorizationModel.GetTypeDefinitions()), Conditions: len(l.authorizationModel.GetConditions()),
+		CurRelations: -1, CurParameters: -1, Extensions: -1, Rewrites: -1, Restrictions: -1, StackDepth: len(l.rewriteStack),
+		Module: l.moduleName, Modular: l.isModularModel, Schema: l.authorizationModel.GetSchemaVersion(),
+	}
+	if l.typeDefExtensions != nil {
+		st.Extensions = len(l.typeDefExtensions)
+	}
+
+	if l.currentTypeDef != nil {
+		st.HasCurType, st.CurType, st.CurRelations = true, l.currentTypeDef.GetType(), len(l.currentTypeDef.GetRelations())
+	}
+
+	if l.currentRelation != nil {
+		st.HasCurRelation, st.Rewrites, st.Operator = true, len(l.currentRelation.Rewrites), string(l.currentRelation.Operator)
+		st.Restrictions = len(l.currentRelation.TypeInfo.GetDirectlyRelatedUserTypes())
+	}
+
+	if l.currentCondition != nil {
+		st.HasCurCondition, st.CurCondition, st.CurParameters = true, l.currentCondition.GetName(), len(l.currentCondition.GetParameters())
+	}
+
+	return st
+}
+
+func verifTraceDoc(l *OpenFgaDslListener, event string, ctx antlr.ParserRuleContext) {
+	if VerifDocTrace == nil {
+		return
+	}
+
+	args := []string{}
+
+	switch c := ctx.(type) {
+	case *parser.ModuleHeaderContext:
+		args = append(args, verifText(c.GetModuleName(), c.GetModuleName() == nil))
+	case *parser.ModelHeaderContext:
+		args = append(args, verifText(c.GetSchemaVersion(), c.GetSchemaVersion() == nil))
+	case *parser.TypeDefContext:
+		args = append(args, verifText(c.GetTypeName(), c.GetTypeName() == nil), strconv.FormatBool(c.EXTEND() != nil))
+		if c.GetTypeName() != nil {
+			args = append(args, verifPos(c.GetTypeName().GetStart())...)
+		}
+	case *parser.RelationDeclarationContext:
+		isExtension := false
+		if parent, ok := c.GetParent().(*parser.TypeDefContext); ok {
+			isExtension = parent.EXTEND() != nil
+		}
+
+		args = append(args, verifText(c.RelationName(), c.RelationName() == nil), strconv.FormatBool(isExtension))
+		if c.RelationName() != nil {
+			args = append(args, verifPos(c.RelationName().GetStart())...)
+		}
+	case *parser.ConditionContext:
+		args = append(args, verifText(c.ConditionName(), c.ConditionName() == nil))
+		if c.ConditionName() != nil {
+			args = append(args, verifPos(c.ConditionName().GetStart())...)
+		}
+	case *parser.ConditionParameterContext:
+		if c.ParameterName() == nil || c.ParameterType() == nil {
+			args = append(args, verifNil)
+
+			break
+		}
+
+		container, generic := c.ParameterType().CONDITION_PARAM_CONTAINER(), c.ParameterType().CONDITION_PARAM_TYPE()
+		args = append(args, c.ParameterName().GetText(), c.ParameterType().GetText(),
+			verifText(container, container == nil), verifText(generic, generic == nil))
+		args = append(args, verifPos(c.ParameterName().GetStart())...)
+	case *parser.ConditionExpressionContext:
+		args = append(args, c.GetText())
+	case *parser.RelationDefTypeRestrictionContext:
+		base := c.RelationDefTypeRestrictionBase()
+		if base == nil {
+			args = append(args, verifNil)
+
+			break
+		}
+
+		typ, rel, wild := base.GetRelationDefTypeRestrictionType(), base.GetRelationDefTypeRestrictionRelation(), base.GetRelationDefTypeRestrictionWildcard()
+		args = append(args, verifText(typ, typ == nil), verifText(rel, rel == nil), strconv.FormatBool(wild != nil),
+			verifText(c.ConditionName(), c.ConditionName() == nil))
+	}
+
+	VerifDocTrace(event, args, verifDocState(l))
+}
+
+// VerifModel returns the model the listener accumulated (also when the error listener holds errors) and the sorted names
+// of the type definitions recorded as extensions.
+func (l *OpenFgaDslListener) VerifModel() (*openfgav1.AuthorizationModel, []string) {
+	names := []string{}
+	for name := range l.typeDefExtensions {
+		names = append(names, name)
+	}
+
+	sort.Strings(names)
+
+	return &l.authorizationModel, names
 }
 
 // VerifTokens, when non-nil, receives the tokens the lexer produced for the (comment-stripped) input of ParseDSL, after
